@@ -92,7 +92,7 @@ class Spec(PropSpec):
         "symlinks, hard links, permissions, timestamps are outside the property; io_uring fsync is covered by C18",
     ]
     partial_note = ("c07_crash_image is proved for every block size, coin and draw sequence, for the alphabet without "
-                    "create_dir_all / remove_dir_all / remove_dir (these three are covered by the FsDurable model, the "
+                    "create_dir_all / remove_dir_all (these two are covered by the FsDurable model, the "
                     "correspondence and the oracle only); it holds outside the known classes RenameFile, RenameSelf, RenameDir, StaleHandle, Recreate, "
                     "KindSwap, RootOp")
 
